@@ -287,6 +287,22 @@ static void run(const Case &c) {
         }
         int comps = orc::components(t);
         if (n - joined != comps) forest_ok = false;
+        bool copies_ok = true;
+        {
+            parmcb::ForestIndex<Graph> copy(fi);
+            Graph other_g;
+            for (int v = 0; v < 7; v++) boost::add_vertex(other_g);
+            boost::add_edge(0, 1, other_g); boost::add_edge(1, 2, other_g); boost::add_edge(0, 2, other_g);
+            boost::add_edge(3, 4, other_g); boost::add_edge(4, 5, other_g); boost::add_edge(3, 5, other_g);
+            parmcb::ForestIndex<Graph> assigned(other_g);
+            assigned = fi;
+            for (auto *x : {&copy, &assigned}) {
+                if (x->weak_connected_components() != fi.weak_connected_components() || x->cycle_space_dimension() != fi.cycle_space_dimension()) copies_ok = false;
+                for (int i = 0; i < m && copies_ok; i++)
+                    if ((*x)(eidx[i]) != fi(eidx[i]) || x->is_on_forest(eidx[i]) != fi.is_on_forest(eidx[i])) copies_ok = false;
+            }
+        }
+        o << ",\"copies_ok\":" << (copies_ok ? "true" : "false");
         o << ",\"bijection\":" << (bij ? "true" : "false") << ",\"components\":" << fi.weak_connected_components() << ",\"exp_components\":" << comps
           << ",\"dim\":" << fi.cycle_space_dimension() << ",\"exp_dim\":" << orc::cycle_space_dim(t)
           << ",\"forest_ok\":" << (forest_ok ? "true" : "false") << ",\"flag_ok\":" << (flag_ok ? "true" : "false");
